@@ -9,7 +9,8 @@ EXTENDS GotelemetryOps, TLC
 CONSTANTS Trees,        \* family of initial directories (sets of entries)
           ModeFiles,    \* initial mode-file contents
           Today,        \* the day the commands run on
-          MaxCmds
+          MaxCmds,
+          BadCmds       \* the refused command lines that are part of the behaviours (subset of BadCommands)
 VARIABLES tree, modeFile, shown, n, init, last
 vars == <<tree, modeFile, shown, n, init, last>>
 NotShown == <<"", -9>>
@@ -36,7 +37,7 @@ Cmd(c) == /\ n < MaxCmds /\ Allowed(c)
           /\ n' = n + 1
           /\ last' = c
           /\ UNCHANGED init
-Next == \E c \in Commands : Cmd(c)
+Next == \E c \in Commands \cup (BadCmds \cap BadCommands) : Cmd(c)
 Spec == Init /\ [][Next]_vars
 
 (* ---- the property on the model's transitions -------------------------------- *)
@@ -52,6 +53,7 @@ NoCommandCreatesData == [][\A e \in tree' : IsData(e) => e \in tree]_vars
 AfterModeCmdItReads  == [][last' \in ValidModes => ReadBack(modeFile')[1] = last']_vars
 CleanIdempotent      == [][last' = "clean" => CleanStep(Nxt) = Nxt]_vars
 EnvShowsTheFile      == [][last' = "env" => shown' = ReadBack(modeFile) /\ UNCHANGED <<tree, modeFile>>]_vars
+RefusedChangesNothing == [][last' \in BadCommands => UNCHANGED <<tree, modeFile>>]_vars
 TypeOK == /\ IsModeFile(modeFile)
           /\ \A e \in tree : e.kind \in {"file", "dir"}
 (* once cleaned, a directory holds no data until something other than these   *)
